@@ -28,3 +28,22 @@ st('htp_connp_RES_BODY_CHUNKED_DATA_END', ['C06', 'C09', 'C01'], 'chunk trailer 
             'connp->out_tx->response_message_len == __CPROVER_loop_entry(connp->out_tx->response_message_len) + (connp->out_current_read_offset - __CPROVER_loop_entry(connp->out_current_read_offset))',
             '(gk < CHUNK_CAP && (int64_t) gk >= __CPROVER_loop_entry(connp->out_current_read_offset) && (int64_t) gk < connp->out_current_read_offset) ==> connp->out_current_data[gk] != LF'],
        dec='connp->out_current_len - connp->out_current_read_offset')})
+
+RES_STATES = ['htp_connp_RES_IDLE', 'htp_connp_RES_LINE', 'htp_connp_RES_HEADERS', 'htp_connp_RES_BODY_DETERMINE', 'htp_connp_RES_BODY_IDENTITY_CL_KNOWN', 'htp_connp_RES_BODY_IDENTITY_STREAM_CLOSE', 'htp_connp_RES_BODY_CHUNKED_LENGTH', 'htp_connp_RES_BODY_CHUNKED_DATA', 'htp_connp_RES_BODY_CHUNKED_DATA_END', 'htp_connp_RES_FINALIZE']
+UNITS.append(U(name='htp_connp_res_data', props=['C09', 'C16', 'C01'], kind='contract', src=['htp_response.c'], link=['htp_connection.c'],
+               enforce='htp_connp_res_data',
+               replace=[f + '/contract_res_state' for f in RES_STATES] + ['htp_res_handle_state_change', 'htp_connp_res_receiver_send_data',
+                        'htp_connp_res_buffer/contract_site_htp_connp_res_buffer', 'htp_tx_state_response_complete_ex/contract_site_htp_tx_state_response_complete_ex', 'htp_log'],
+               contracts_inc=INC,
+               loops={'htp_response.c': {'htp_connp_res_data': {'count': 1, 0: dict(
+                   assigns='RS_STATE_FRAME(connp), g_txstate_n',
+                   inv=['connp->conn == __CPROVER_loop_entry(connp->conn)', 'connp->out_current_len == (int64_t) len', 'connp->out_current_data == (unsigned char *) data', 'CUR_OUT_CURSOR(connp)',
+                        'IS_RES_STATE(connp->out_state)', 'RES_TX_INV(connp)', 'connp->out_status != HTP_STREAM_STOP && connp->out_status != HTP_STREAM_ERROR'])}}},
+               harness='void HARNESS(void) { htp_connp_t *c; const htp_time_t *t; const void *d; size_t n; htp_connp_res_data(c, t, d, n); CANARY(); }',
+               defs=D, min_obl=100, timeout=(600, 1800), objbits=12,
+               pre_instrument=['--restrict-function-pointer', 'htp_connp_res_data.function_pointer_call.1/' + ','.join(RES_STATES),
+                               '--restrict-function-pointer', 'htp_connp_res_data.function_pointer_call.2/' + ','.join(RES_STATES)],
+               sub='response driver: documented stream states only; DATA => whole chunk consumed; DATA_OTHER => strictly fewer and resumable; STOP/ERROR sticky with zero state-function calls; TUNNEL short-circuit with zero calls; byte counter += len; every state function replaced by the shared state contract',
+               assumes=A + ['every response state function replaced by the shared contract contract_res_state (each one is enforced against a contract that contains it)',
+                            'termination of the driver loop is NOT proved here (no decreases clause): see DESIGN C09',
+                            'callbacks return OK/DECLINED/STOP/ERROR only']))
